@@ -337,10 +337,16 @@ func (s *Session) run(ctx context.Context) {
 				sessionSpan.AddEvent("Session.WantsSentOp")
 				s.sw.WantsSent(oper.keys)
 			case opBroadcast:
-				// Broadcast want-haves to all peers
-				opCtx, span := internal.StartSpan(ctx, "Session.BroadcastOp")
-				s.broadcast(opCtx, oper.keys)
-				span.End()
+				// Broadcast want-haves to all peers. The keys were reported by
+				// the sessionWantSender; some of them may have been received
+				// or canceled in the meantime. Broadcasting those would put
+				// them back on the wantlist with no session left to cancel
+				// them.
+				if ks := s.sw.FilterWanted(oper.keys); len(ks) > 0 {
+					opCtx, span := internal.StartSpan(ctx, "Session.BroadcastOp")
+					s.broadcast(opCtx, ks)
+					span.End()
+				}
 			default:
 				panic("unhandled operation")
 			}
